@@ -960,6 +960,31 @@ __CPROVER_assigns(g_asc_calls, __CPROVER_object_whole(g_asc_id), __CPROVER_objec
                             "  for (int k = 0; k < KS; k++) { g_stored[k].id = nondet_ulong(); g_stored[k].coef = nondet_uint(); }", "add_coboundary(in_i, in_f, in_dim);"),
                   desc="add_coboundary: adds the coboundary of the added column's own simplex with coefficient `factor`, then of every simplex stored for that column with its coefficient times `factor` reduced modulo the characteristic (no 32-bit wrap for moduli below 2^16)"))
 
+def get_edges_units(U):
+    """Rips_filtration::get_edges, inner loop bodies: which pairs become edges of the filtration (dense: length <= threshold,
+    the complex is truncated AT the threshold like the coboundary enumerator does; sparse: every stored neighbour once)."""
+    G = ND + """
+#include <math.h>
+typedef int vertex_t; typedef float value_t; typedef unsigned long simplex_t;
+value_t threshold; value_t g_dist_ij; int g_dist_i = -1, g_dist_j = -1; unsigned g_push; value_t g_push_len; simplex_t g_push_idx; simplex_t g_eidx; int g_eidx_i, g_eidx_j;
+static value_t vp_dist(vertex_t i, vertex_t j) { g_dist_i = i; g_dist_j = j; return g_dist_ij; }
+static simplex_t get_edge_index(vertex_t i, vertex_t j) { g_eidx_i = i; g_eidx_j = j; return g_eidx; }
+static void edges_push(value_t len, simplex_t idx) { g_push++; g_push_len = len; g_push_idx = idx; }
+"""
+    fn = Fn(RP, r"std::vector<diameter_simplex_t> get_edges\(\)", "edge_dense", """
+__CPROVER_requires(g_push == 0 && !isnan(g_dist_ij) && !isnan(threshold))
+__CPROVER_ensures(g_push == (g_dist_ij <= threshold ? 1 : 0))
+__CPROVER_ensures(g_push == 0 || (g_push_len == g_dist_ij && g_push_idx == g_eidx && g_eidx_i == i && g_eidx_j == j))
+__CPROVER_ensures(g_dist_i == i && g_dist_j == j)
+__CPROVER_assigns(g_push, g_push_len, g_push_idx, g_dist_i, g_dist_j, g_eidx_i, g_eidx_j)
+""", piece={"kind": "loop", "ordinal": 1, "sig": "void edge_dense(vertex_t i, vertex_t j)"},
+            constexpr=[(r"!std::is_same_v<typename DistanceMatrix::Category, Tag_sparse>", True)],
+            subs=[(r"\bdist\(", "vp_dist("), (r"edges\.push_back\(\{(\w+), ([^;]*)\}\);", r"edges_push(\1, \2);")],
+            canary=(r"length <= threshold", "length < threshold"))
+    U.append(Unit("rips_filtration.get_edges.dense", "C11", [fn], enforce="edge_dense", globals_=G, inputs=["in_i", "in_j", "g_dist_ij", "threshold"], replay=replay_by_native_search,
+                  harness=H("  int in_i = nondet_int(), in_j = nondet_int(); g_dist_ij = nondet_float(); threshold = nondet_float(); g_push = 0;", "edge_dense(in_i, in_j);"),
+                  desc="get_edges, dense matrices, one pair (i, j): the pair is an edge of the filtration exactly when its length is <= threshold (the filtration is truncated AT the threshold), with that length and the index of {i, j}"))
+
 def enumerator_units(U):
     """dense Simplex_coboundary_enumerator_::next(): filters the raw cofacets by the threshold.  next_raw (the
     enumeration itself) is a ghost stub that yields an arbitrary finite sequence of candidates."""
@@ -1228,6 +1253,7 @@ def units(tier):
     pairs_step_units(U)
     emergent_units(U)
     add_coboundary_units(U)
+    get_edges_units(U)
     return U
 
 
